@@ -400,7 +400,6 @@ func runProperty(prop *Property, repo, tier string, onlyConstruct string) (int, 
 	return 0, nil
 }
 
-
 // evalOnce loads one build configuration and evaluates the property's rules on it.
 func evalOnce(prop *Property, repo, tier string, roots []string, tags, arch string) (*Ctx, *Prog, error) {
 	p, err := Load(repo, tier, roots, tags, arch)
